@@ -18,6 +18,8 @@ enum A {
     Del(i64),
     Get(i64),
     Pred(i64),      // predecessor handle of the probe, then a read through it
+    DelPred(i64),   // predecessor handle of the probe, then delete through it
+    SetPred(i64),   // predecessor handle of the probe, then a write through it
     Walk,           // set only: neighbour steps from the greatest entry down to the sentinel
     Clear,
     KIns(i64, i64), // expiring: key, lifetime (expiration = now + lifetime)
@@ -27,7 +29,7 @@ enum A {
     Tick,
 }
 
-fn alphabet(coll: &str, keys: i64) -> Vec<A> {
+fn alphabet(coll: &str, keys: i64, extended: bool) -> Vec<A> {
     let mut v = Vec::new();
     match coll {
         "key" | "klist" => {
@@ -42,6 +44,7 @@ fn alphabet(coll: &str, keys: i64) -> Vec<A> {
             for k in 1..=keys { v.push(A::Del(k)); }
             for k in 1..=keys { v.push(A::Get(k)); }
             v.push(A::Pred(keys));
+            if extended { v.push(A::DelPred(keys)); v.push(A::SetPred(keys - 1)); }
             if coll == "set" || coll == "slist" { v.push(A::Walk); }
             v.push(A::Clear);
         }
@@ -85,6 +88,18 @@ fn run_history(coll: &str, cap: usize, hist: &[A], ops_out: Option<&mut Vec<(Op,
                 let e = r.pred(k, false);
                 match (h.parse::<i64>().ok(), e) {
                     (Some(h), Some(ev)) => { let pk = *r.m.range(..=k).next_back().unwrap().0; chk(Op::new("validx", &[h]), Some(pk), &mut c, &mut rec, Some(ev.to_string())); }
+                    (None, None) => {}
+                    (hh, ee) => { if bad.is_none() { bad = Some((i, format!("handle of {:?}", ee), format!("{:?}", hh))); } }
+                }
+            }
+            A::DelPred(k) | A::SetPred(k) => {
+                let h = chk(Op::new("fil", &[k]), None, &mut c, &mut rec, None);
+                let pk = r.m.range(..=k).next_back().map(|x| *x.0);
+                match (h.parse::<i64>().ok(), pk) {
+                    (Some(h), Some(pk)) => {
+                        if matches!(*a, A::DelPred(_)) { chk(Op::new("delidx", &[h]), Some(pk), &mut c, &mut rec, None); r.m.remove(&pk); }
+                        else { chk(Op::new("setidx", &[h, val]), Some(pk), &mut c, &mut rec, None); r.m.insert(pk, (0, val)); }
+                    }
                     (None, None) => {}
                     (hh, ee) => { if bad.is_none() { bad = Some((i, format!("handle of {:?}", ee), format!("{:?}", hh))); } }
                 }
@@ -153,6 +168,7 @@ fn dfs(coll: &str, cap: usize, alpha: &[A], hist: &mut Vec<A>, keys: &mut BTreeM
         match a {
             A::Ins(k) => { keys.insert(k, 0); }
             A::Del(k) => { keys.remove(&k); }
+            A::DelPred(k) => { if let Some(pk) = keys.range(..=k).next_back().map(|x| *x.0) { keys.remove(&pk); } }
             A::Clear => { keys.clear(); }
             A::KIns(k, life) => { keys.insert(k, t + life); }
             A::Tick => { t2 += 1; }
@@ -166,8 +182,8 @@ fn dfs(coll: &str, cap: usize, alpha: &[A], hist: &mut Vec<A>, keys: &mut BTreeM
 }
 
 /// all histories of length 1..=depth; returns (histories executed, failing history replayed through the Runner?)
-pub fn history_exhaustive(out: &mut Out, coll: &str, keys: i64, depth: usize, cap: usize) -> (u64, bool) {
-    let alpha = alphabet(coll, keys);
+pub fn history_exhaustive(out: &mut Out, coll: &str, keys: i64, depth: usize, cap: usize, extended: bool) -> (u64, bool) {
+    let alpha = alphabet(coll, keys, extended);
     let count = AtomicU64::new(0);
     let found: Mutex<Option<Vec<A>>> = Mutex::new(None);
     let expiring = coll == "key" || coll == "klist";
@@ -199,6 +215,7 @@ pub fn history_exhaustive(out: &mut Out, coll: &str, keys: i64, depth: usize, ca
                             match a {
                                 A::Ins(k) => { ks.insert(k, 0); }
                                 A::Del(k) => { ks.remove(&k); }
+                                A::DelPred(k) => { if let Some(pk) = ks.range(..=k).next_back().map(|x| *x.0) { ks.remove(&pk); } }
                                 A::Clear => { ks.clear(); }
                                 A::KIns(k, life) => { ks.insert(k, t + life); }
                                 A::Tick => { t += 1; }
